@@ -733,9 +733,11 @@ func (in *interp) loadSym(p symPtr) value {
 	if n == 0 {
 		panic(runtimePanic{"index out of range"})
 	}
-	// all elements must be scalars
+	// all elements must be scalars; count runs of identical elements
 	scalar := true
-	for _, e := range p.base {
+	runs := 0
+	var prev value
+	for i, e := range p.base {
 		switch e.(type) {
 		case Sym, bool:
 		default:
@@ -746,8 +748,12 @@ func (in *interp) loadSym(p symPtr) value {
 		if !scalar {
 			break
 		}
+		if i == 0 || e != prev {
+			runs++
+			prev = e
+		}
 	}
-	if !scalar || n > in.maxIteTable {
+	if !scalar || runs > in.maxIteTable {
 		i := in.concretize(p.idx, "index")
 		return copyVal(p.base[i])
 	}
